@@ -347,11 +347,15 @@ example : Run (envOf [(0, exBody)]) exBody []
 example : projT 1 [.acq 1 7 .excl, .acc 1 exW, .rel 1 7 .excl] =
     ([.acq ⟨7, .excl⟩, .acq ⟨7, .shared⟩, .acc 0 [⟨7, .shared⟩, ⟨7, .excl⟩], .rel 7] : List LEv).map shapeOf := by decide
 
-theorem repo_lists_empty : Gen.unjustifiedOcc = [] ∧ Gen.exemptOcc = [] := by decide
+/-- a row whose locks are not re-derived from the skeletons: listed as unjustified (the check fails then) or exempt
+    (its function uses control flow the skeletons do not express: `goto`, `fallthrough`); for such rows the Go-side
+    lockset is an assumption of the theorems below (`hext`).  Both lists are empty on the pinned tree. -/
+def NotRederived (a : Access) : Prop := Gen.unjustifiedOcc.contains a.site = true ∨ Gen.exemptOcc.contains a.site = true
 
-/-- the real locks of a table row are held — in the global lock state — whenever a conforming goroutine performs it -/
+/-- the real locks of a re-derived table row are held — in the global lock state — whenever a conforming goroutine performs it -/
 theorem repo_real_locks_held {tr : List Ev} (hwf : WF tr) {t : Tid} (hconf : Conforms tr t)
-    (hasm : AsmOk t LState.init tr) {i : Nat} {a : Access} (hi : tr[i]? = some (Ev.acc t a)) (ha : a ∈ Gen.accesses) :
+    (hasm : AsmOk t LState.init tr) {i : Nat} {a : Access} (hi : tr[i]? = some (Ev.acc t a)) (ha : a ∈ Gen.accesses)
+    (hre : ¬ NotRederived a) :
     ∀ x, x ∈ realLocks Gen.tokenIds a → HoldsAtLeast tr i t x := by
   obtain ⟨g, body, evs, h', o, hb, he, hrun, hpre⟩ := hconf
   obtain ⟨send, hsend⟩ := hwf
@@ -360,9 +364,16 @@ theorem repo_real_locks_held {tr : List Ev} (hwf : WF tr) {t : Tid} (hconf : Con
     simpa using this
   obtain ⟨sj, hk, hr, hmem, hheld⟩ :=
     sim t hsend (fun x hx => absurd hx List.not_mem_nil) hcons hpre hasm i a hi
+  have hnu : Gen.unjustifiedOcc.contains a.site = false := by
+    cases h : Gen.unjustifiedOcc.contains a.site with
+    | false => rfl
+    | true => exact absurd (Or.inl h) hre
+  have hne : Gen.exemptOcc.contains a.site = false := by
+    cases h : Gen.exemptOcc.contains a.site with
+    | false => rfl
+    | true => exact absurd (Or.inr h) hre
   have hsub : Sub (realLocks Gen.tokenIds a) hk :=
-    repo_locks_held hb (by rw [he]; exact sub_nil _) hrun ha
-      (by rw [repo_lists_empty.1]; rfl) (by rw [repo_lists_empty.2]; rfl) hmem
+    repo_locks_held hb (by rw [he]; exact sub_nil _) hrun ha hnu hne hmem
   intro x hx
   rcases hheld x (hsub x hx) with h1 | ⟨hm, h2⟩
   · exact Or.inl ⟨sj, hr, h1⟩
@@ -372,25 +383,29 @@ theorem repo_real_locks_held {tr : List Ev} (hwf : WF tr) {t : Tid} (hconf : Con
 theorem repo_respects_of_conformance {tr : List Ev} (hwf : WF tr)
     (hconf : ∀ t, Conforms tr t) (hasm : ∀ t, AsmOk t LState.init tr)
     (hrows : ∀ (i : Nat) t a, tr[i]? = some (Ev.acc t a) → a ∈ Gen.accesses)
-    (htok : ∀ (i : Nat) t a, tr[i]? = some (Ev.acc t a) → ∀ h, h ∈ a.locks → Gen.tokenIds.contains h.m = true → HoldsAtLeast tr i t h) :
+    (htok : ∀ (i : Nat) t a, tr[i]? = some (Ev.acc t a) → ∀ h, h ∈ a.locks → Gen.tokenIds.contains h.m = true → HoldsAtLeast tr i t h)
+    (hext : ∀ (i : Nat) t a, tr[i]? = some (Ev.acc t a) → NotRederived a → ∀ h, h ∈ a.locks → HoldsAtLeast tr i t h) :
     Respects Gen.accesses tr := by
   intro i t a hi
   refine ⟨hrows i t a hi, fun h hh => ?_⟩
+  by_cases hre : NotRederived a
+  · exact hext i t a hi hre h hh
   by_cases htk : Gen.tokenIds.contains h.m = true
   · exact htok i t a hi h hh htk
   · have hreal : h ∈ realLocks Gen.tokenIds a := by
       unfold realLocks
       exact List.mem_filter.2 ⟨hh, by simpa using htk⟩
-    exact repo_real_locks_held hwf (hconf t) (hasm t) hi (hrows i t a hi) h hreal
+    exact repo_real_locks_held hwf (hconf t) (hasm t) hi (hrows i t a hi) hre h hreal
 
 /-- **repo_no_race_of_conformance** — no data race in any well-formed execution whose goroutines follow the
     regenerated skeletons, whose accesses are table rows, and in which tokens and annotated assumptions hold. -/
 theorem repo_no_race_of_conformance {tr : List Ev} (hwf : WF tr)
     (hconf : ∀ t, Conforms tr t) (hasm : ∀ t, AsmOk t LState.init tr)
     (hrows : ∀ (i : Nat) t a, tr[i]? = some (Ev.acc t a) → a ∈ Gen.accesses)
-    (htok : ∀ (i : Nat) t a, tr[i]? = some (Ev.acc t a) → ∀ h, h ∈ a.locks → Gen.tokenIds.contains h.m = true → HoldsAtLeast tr i t h) :
+    (htok : ∀ (i : Nat) t a, tr[i]? = some (Ev.acc t a) → ∀ h, h ∈ a.locks → Gen.tokenIds.contains h.m = true → HoldsAtLeast tr i t h)
+    (hext : ∀ (i : Nat) t a, tr[i]? = some (Ev.acc t a) → NotRederived a → ∀ h, h ∈ a.locks → HoldsAtLeast tr i t h) :
     ¬ Race tr :=
-  repo_no_race tr hwf (repo_respects_of_conformance hwf hconf hasm hrows htok)
+  repo_no_race tr hwf (repo_respects_of_conformance hwf hconf hasm hrows htok hext)
 
 /-- **repo_no_race_of_conformance_tokens** — the same with the tokens read as ordering assumptions (no fictitious
     token events): goroutines follow the skeletons, accesses are table rows, annotated assumptions hold where marked,
@@ -398,13 +413,20 @@ theorem repo_no_race_of_conformance {tr : List Ev} (hwf : WF tr)
 theorem repo_no_race_of_conformance_tokens {tr : List Ev} (hwf : WF tr)
     (hconf : ∀ t, Conforms tr t) (hasm : ∀ t, AsmOk t LState.init tr)
     (hrows : ∀ (i : Nat) t a, tr[i]? = some (Ev.acc t a) → a ∈ Gen.accesses)
-    (htok : TokenOrdered Gen.tokenIds tr) : ¬ Race tr := by
+    (htok : TokenOrdered Gen.tokenIds tr)
+    (hext : ∀ (i : Nat) t a, tr[i]? = some (Ev.acc t a) → NotRederived a → ∀ h, h ∈ a.locks → HoldsAtLeast tr i t h) :
+    ¬ Race tr := by
   refine lockset_sound_tokens Gen.tokenIds repo_race_free tr hwf ?_ htok
   intro i t a hi
   refine ⟨hrows i t a hi, fun h hh hnt => ?_⟩
+  by_cases hre : NotRederived a
+  · exact hext i t a hi hre h hh
   have hreal : h ∈ realLocks Gen.tokenIds a := by
     unfold realLocks
     exact List.mem_filter.2 ⟨hh, by simpa using hnt⟩
-  exact repo_real_locks_held hwf (hconf t) (hasm t) hi (hrows i t a hi) h hreal
+  exact repo_real_locks_held hwf (hconf t) (hasm t) hi (hrows i t a hi) hre h hreal
+
+-- On the pinned tree `Gen.unjustifiedOcc = []` and `Gen.exemptOcc = []`, i.e. `hext` is vacuous; the check reports a
+-- non-empty `unjustifiedOcc` as a broken obligation and a non-empty `exemptOcc` as a note in the evidence.
 
 end KV.C10
